@@ -1,6 +1,6 @@
-import SC.Proofs.SrcBase
+import SC.Proofs.SrcNames
 /-!
-The look-up facts of `SrcBase.lean` for the regenerated `bytcase/bytcase.go` (`Gen.Src.byt`).
+The look-up facts of `SrcNames.lean` for the regenerated `bytcase/bytcase.go` (`Gen.Src.byt`).
 -/
 namespace GoSsa.Byt
 open GoSsa Gen.Src
